@@ -28,6 +28,26 @@ type TypeOpts struct {
 	Leaves []string
 	// SkipFields allows json:"-" / bq:"-" fields.
 	SkipFields bool
+	// Wide adds the kinds outside the supported subset (C05/C15): other
+	// integer widths, unsigned, complex, Go arrays, non-string map keys,
+	// interface, chan, func, unsafe.Pointer.
+	Wide bool
+}
+
+var wideLeaves = []string{"int8", "uint", "uint8", "uint16", "uint32", "uint64", "uintptr", "complex64", "complex128", "iface", "chan", "func", "unsafeptr"}
+
+func wideType(t *rapid.T, o TypeOpts, depth int) spec.TypeSpec {
+	switch rapid.IntRange(0, 5).Draw(t, "widekind") {
+	case 0:
+		return spec.BArray(rapid.SampledFrom([]int{0, 1, 4, 16}).Draw(t, "barrayN"))
+	case 1:
+		e := Type(t, o, depth+1)
+		return spec.TypeSpec{K: "array", N: rapid.IntRange(0, 3).Draw(t, "arrayN"), Elem: &e}
+	case 2:
+		e := Type(t, o, depth+1)
+		return spec.TypeSpec{K: "mapk", Key: rapid.SampledFrom([]string{"int", "int64", "bool", "float64", "uint8"}).Draw(t, "mapkey"), Elem: &e}
+	}
+	return spec.T(rapid.SampledFrom(wideLeaves).Draw(t, "wideleaf"))
 }
 
 func weighted(t *rapid.T, label string, choices []string, weights []int) string {
@@ -50,6 +70,9 @@ func Type(t *rapid.T, o TypeOpts, depth int) spec.TypeSpec {
 	leaves := o.Leaves
 	if leaves == nil {
 		leaves = leafKinds
+	}
+	if o.Wide && rapid.IntRange(0, 11).Draw(t, "wide") == 0 {
+		return wideType(t, o, depth)
 	}
 	if depth >= o.MaxDepth {
 		return spec.T(rapid.SampledFrom(leaves).Draw(t, "leaf"))
